@@ -254,18 +254,9 @@ Definition unravel (k : kind) (b : binding) (w : wire) : result xmltext :=
 Definition node_id_arg (i : option str) : option str :=
   match i with Some [] => None | x => x end.
 
-Fixpoint count_id (v : str) (t : tree) : nat :=
-  match t with
-  | Sg _ _ _ => O
-  | El _ i _ kids =>
-      ((match i with Some x => if str_eqb x v then 1 else 0 | None => 0 end) +
-       (fix go (l : list tree) : nat := match l with [] => 0 | c :: r => count_id v c + go r end) kids)%nat
-  end.
-
-(* the C01 repair: _enveloped_signature_ok(decoded_xml, node_name, node_id) *)
-Definition enveloped_ok (doc : tree) (nm : N) (i : option str) : bool :=
-  precheck doc nm i &&
-  match i with Some v => Nat.eqb (count_id v doc) 1 | None => false end.
+(* the C01 repair: _enveloped_signature_ok(decoded_xml, node_name, node_id) = Model/Xmlsec.v precheck (which counts the
+   carriers of the ID among the elements of ANY name, as the library does) *)
+Definition enveloped_ok (doc : tree) (nm : N) (i : option str) : bool := precheck doc nm i.
 
 Definition cert_ok (c : rcfg) (k : N) : bool :=
   match c_valid_certs c with None => true | Some l => memN k l end.
